@@ -87,6 +87,10 @@ def judge(data: bytes, cfg: dict, devs=None):
 
 
 def replay_case(case):
+    if case.get("kind") == "sessions":
+        a = engine.Acc()
+        eval_block(("sessions", case["a"]), a)
+        return [(k, v[2]) for k, v in a.viol.items()]
     data = bytes.fromhex(case["stream"])
     devs = {int(k): v for k, v in case["devs"].items()} if case.get("devs") else None
     out, _ = judge(data, case["cfg"], devs)
@@ -102,6 +106,33 @@ def eval_block(block, acc):
         _, ring, b = block
         cfgs = full_configs() if ring == "full" else RINGS[ring]
         it = streams.iter_block(tuple(b) if b[0] == "short" else ("pre", b[1], b[2]))
+    elif kind == "sessions":
+        # two socket sessions one after the other in this process: session B's items must be slices of B's data
+        from pyubx2 import UBXReader
+        a_tok = block[1]
+        for b_tok in streams.FRAME_TOKENS:
+            da, db = streams.seq_bytes((a_tok, "N1")), streams.seq_bytes((b_tok, "Uack"))
+            for chunk, bufsize in ((3, 4), (4096, 4096)):
+                for data in (da, db):
+                    rd = UBXReader(streams.ChunkSocket(data, chunk), bufsize=bufsize, quitonerror=0)
+                    items = []
+                    try:
+                        for raw, parsed in rd:
+                            items.append(raw)
+                            if len(items) > len(data) + 4:
+                                break
+                    except Exception as e:  # noqa: BLE001
+                        acc.extra["raised(judged by C08)"] += 1
+                    pos = 0
+                    acc.evaluations += 1
+                    acc.transitions += len(items) + 1
+                    for raw in items:
+                        i = data.find(raw, pos)
+                        if i < 0:
+                            acc.violation("raw_not_a_slice|second_socket_session", {"kind": "sessions", "a": a_tok, "b": b_tok, "chunk": chunk, "bufsize": bufsize}, f"raw={raw.hex()[:40]} not in this session's data")
+                            break
+                        pos = i + len(raw)
+        return
     elif kind == "short":
         # one deviation: the i-th stream call answered short, for every i (token sequences <= 2)
         first = block[1]
@@ -167,6 +198,7 @@ def run_tier(tier, t0):
     blocks = [b for b in blocks if b[0] != "tokens0"]
     blocks.append(("long",))
     blocks += [("short", f) for f in streams.FRAME_TOKENS]
+    blocks += [("sessions", f) for f in ("Uack", "N1", "R1")]
     acc = engine.sweep(blocks, eval_block)
     engine.finish(
         PROP, tier, acc, t0, replay_case,
